@@ -448,11 +448,19 @@ def r_global_guards(c):
                 "parts, so the missing-send/missing-receive comparison has nothing to check")
 
 
+def r_state(c):
+    """partitioning the same (correct) program twice gives the same verdict"""
+    from pta.rules.common import check_no_shared_state
+    check_no_shared_state(
+        c, "R10-STATE", [D + "partition", D + "verify", D + "tags", D + "nodes"],
+        "a second partitioning in the same process sees the identifiers of the first "
+        "(a correct program is then rejected, e.g. with a spurious CycleError)")
+
 SPEC = Spec(
     prop="C10",
     rules=[r_raise_reach, r_check_before_insert, r_who_may_construct, r_cycle, r_no_reinit,
-           r_global_guards],
-    floors={"R10-RAISE-REACH": 8, "R10-CHECK-BEFORE-INSERT": 10, "R10-SELF": 4, "R10-CYCLE": 5},
+           r_global_guards, r_state],
+    floors={"R10-RAISE-REACH": 8, "R10-CHECK-BEFORE-INSERT": 10, "R10-SELF": 4, "R10-CYCLE": 5, "R10-STATE": 4},
     explanation=(
         "Decides code-shape conditions, not 'every malformed pattern is caught'. "
         "R10-RAISE-REACH: each diagnostic the property names has a raise site "
